@@ -24,6 +24,7 @@ from ..timeline import EPS, run_async, run_sync
 UNIT_TIMEOUT = 900  # backstop against a hung unit only; thread-slice subtrees can take minutes on a loaded machine
 LEVEL = "exploration"
 RULE = (
+    "RESUME: every sequence of <=2 send / send_events operations placed between from_snapshot() and start() of a restored interpreter (snapshot after 0-2 events), then one event after start: everything accepted is processed once, in order; HOOK: send / send_events issued from a plugin's on_interpreter_start hook are processed once, in order, after the initial entry; "
     "RTC machine: numbered external events E(n) whose handler brackets its work with start/end markers (async: suspends "
     "in between), R raises two events, S calls interpreter.send() from inside an action, B calls send_events() from inside "
     "an action, T enters a state with an eventless follow-up chain, W arms an after-timer and a service that complete while "
@@ -288,6 +289,146 @@ def run_one(engine: str, variant: str, script, prefix=None):
     return results, n, capped
 
 
+# ------------------------------------------------------------------ events accepted between from_snapshot() and start()
+RESUME_OPS = [("send", ["E"]), ("send", ["F"]), ("batch", ["E", "F"]), ("batch", ["F", "E"])]
+
+
+def resume_cfg() -> Dict[str, Any]:
+    both = {"F": {"actions": ["mk:f"]}}
+    return {"id": "m", "initial": "a", "context": {},
+            "states": {"a": {"on": dict(both, E={"target": "b", "actions": ["mk:e"]})},
+                       "b": {"on": dict(both, E={"target": "a", "actions": ["mk:e"]})}}}
+
+
+def run_resume(engine: str) -> Dict[str, Any]:
+    """A restored interpreter reports status running and accepts send() / send_events() at once; the async engine attaches its
+    run loop in start().  Every sequence of <=2 operations placed between from_snapshot() and start() (after 0-2 events
+    before the snapshot, followed by one more event after start): everything accepted is processed once, in order."""
+    from xstate_statemachine import Interpreter, SyncInterpreter
+    from ..drivers import AsyncDriver, SyncDriver
+
+    res = dict(states=0, transitions=0, executions=0, evaluations=0, distinct=[], violations=[], samples=[], caps=[])
+    for pre in (0, 1, 2):
+        for n_ops in (0, 1, 2):
+            for seq in itertools.product(RESUME_OPS, repeat=n_ops):
+                h = Harness(resume_cfg(), with_plugin=True, threads=(engine == "sync"), extra_markers=["mk:e", "mk:f"])
+                d = h.driver(engine)
+                try:
+                    d.start()
+                    for _ in range(pre):
+                        d.send("E", n=0)
+                    snap = d.interp.get_snapshot()
+                finally:
+                    d.close()
+                h2 = Harness(resume_cfg(), with_plugin=True, threads=(engine == "sync"), extra_markers=["mk:e", "mk:f"])
+                if engine == "sync":
+                    r = SyncDriver(h2, interp=h2._attach(SyncInterpreter.from_snapshot(snap, h2.machine())))
+                else:
+                    r = AsyncDriver(h2, interp=None)
+                    with r.loop.active():
+                        r.interp = h2._attach(Interpreter.from_snapshot(snap, h2.machine()))
+                try:
+                    accepted: List[Tuple[str, int]] = []
+                    k = 0
+                    for how, types in seq:
+                        evs = []
+                        for t in types:
+                            k += 1
+                            evs.append({"type": t, "n": k})
+                            accepted.append((t, k))
+                        if how == "send":
+                            r.send(evs[0]["type"], n=evs[0]["n"])
+                        else:
+                            r.send_batch(evs)
+                    if engine == "async":
+                        r.start()
+                    k += 1
+                    r.send("E", n=k)
+                    accepted.append(("E", k))
+                    r.settle()
+                    processed = [(e[1], e[2]) for e in h2.rec.log if e[0] == "EV"]
+                    res["executions"] += 1
+                    res["evaluations"] += 1
+                    res["distinct"].append(hash((engine, pre, repr(seq))))
+                    if processed != accepted:
+                        lost = [a for a in accepted if a not in processed]
+                        clause = "event-lost" if lost else "order-or-duplication"
+                        res["violations"].append(dict(
+                            signature=f"C04|{clause}|{engine}|accepted-between-from_snapshot-and-start", clause=clause,
+                            what=f"{engine}: restored interpreter (snapshot after {pre} events) accepted {accepted} "
+                                 f"({[h_ for h_, _ in seq]} before start()) but processed {processed}",
+                            size=len(seq), replay=dict(engine="resume", which=engine)))
+                finally:
+                    r.close()
+    res["samples"].append(dict(kind="resume", engine=engine, cases=res["executions"]))
+    return res
+
+
+def run_hook_send(engine: str) -> Dict[str, Any]:
+    """Events sent from a plugin's on_interpreter_start hook: the status already says running, so they are accepted - they
+    must be processed once, in order, after the initial entry (never against the still empty configuration)."""
+    import asyncio as _asyncio
+
+    from xstate_statemachine import PluginBase
+
+    res = dict(states=0, transitions=0, executions=0, evaluations=0, distinct=[], violations=[], samples=[], caps=[])
+    cfg = {"id": "m", "initial": "a",
+           "states": {"a": {"entry": ["mk:en_a"], "on": {"E": {"target": "b", "actions": ["mk:e"]}, "F": {"actions": ["mk:f"]}}},
+                      "b": {"entry": ["mk:en_b"], "on": {"E": {"target": "a", "actions": ["mk:e"]}, "F": {"actions": ["mk:f"]}}}}}
+    for seq in ([("send", ["E"])], [("send", ["F"]), ("send", ["E"])], [("batch", ["E", "F"])], [("send", ["E"]), ("batch", ["F", "E"])]):
+        h = Harness(cfg, with_plugin=True, threads=(engine == "sync"), extra_markers=["mk:e", "mk:f", "mk:en_a", "mk:en_b"])
+        d = h.driver(engine)
+        accepted: List[Tuple[str, int]] = []
+
+        class Hook(PluginBase):
+            def on_interpreter_start(self, interp):
+                k = 0
+                for how, types in seq:
+                    evs = []
+                    for t in types:
+                        k += 1
+                        evs.append({"type": t, "n": k})
+                        accepted.append((t, k))
+                    if engine == "sync":
+                        interp.send(evs[0]["type"], n=evs[0]["n"]) if how == "send" else interp.send_events(evs)
+                    else:
+                        coro = interp.send(evs[0]["type"], n=evs[0]["n"]) if how == "send" else interp.send_events(evs)
+                        _asyncio.ensure_future(coro)
+
+        try:
+            if engine == "async":
+                with d.loop.active():
+                    d.interp.use(Hook())
+            else:
+                d.interp.use(Hook())
+            d.start()
+            d.settle()
+            log = list(h.rec.log)
+            processed = [(e[1], e[2]) for e in log if e[0] == "EV" and e[1] in ("E", "F")]
+            first_entry = next((i for i, e in enumerate(log) if e[0] == "A" and e[1] == "mk:en_a"), None)
+            first_ev = next((i for i, e in enumerate(log) if e[0] == "EV" and e[1] in ("E", "F")), None)
+            res["executions"] += 1
+            res["evaluations"] += 1
+            res["distinct"].append(hash((engine, repr(seq))))
+            handled = [e[1] for e in log if e[0] == "A" and e[1] in ("mk:e", "mk:f")]
+            probs = []
+            if processed != accepted:
+                probs.append(("event-lost" if len(processed) < len(accepted) else "order-or-duplication", f"accepted {accepted} processed {processed}"))
+            elif len(handled) != len(accepted):
+                probs.append(("event-lost", f"accepted {accepted}, all received, but only {handled} were handled: some met a configuration in which nothing handles them"))
+            if first_ev is not None and (first_entry is None or first_ev < first_entry):
+                probs.append(("processed-before-initial-entry", f"log {[e[:2] for e in log[:6]]}"))
+            for clause, detail in probs:
+                res["violations"].append(dict(
+                    signature=f"C04|{clause}|{engine}|sent-from-on_interpreter_start", clause=clause,
+                    what=f"{engine}: {clause}: {detail}; hook operations {seq}", size=len(seq),
+                    replay=dict(engine="hook-send", which=engine)))
+        finally:
+            d.close()
+    res["samples"].append(dict(kind="hook-send", engine=engine, cases=res["executions"]))
+    return res
+
+
 VARIANTS = ("plain", "start-raise", "start-send", "start-go", "start-always", "start-always-raise")
 
 
@@ -316,6 +457,9 @@ def units(tier: str) -> List[Any]:
     for M in (2, 3):
         us.append(("burst", M, 3 * M))
     for engine in ENGINES:
+        us.append(("resume", engine, None))
+        us.append(("hook-send", engine, None))
+    for engine in ENGINES:
         maxlen = (3 if tier == "quick" else 4) if engine == "sync" else (2 if tier == "quick" else 3)
         sc = scripts(maxlen, engine)
         for variant in VARIANTS:
@@ -339,6 +483,10 @@ def run_unit(unit):
         r["distinct"] = [hash(("burst", unit[1], unit[2]))]
         r.pop("distinct_count", None)
         return r
+    if unit[0] == "resume":
+        return run_resume(unit[1])
+    if unit[0] == "hook-send":
+        return run_hook_send(unit[1])
     engine, variant, batch = unit
     res = dict(states=0, transitions=0, executions=0, evaluations=0, distinct=[], violations=[], samples=[], caps=[])
     if engine == "preempt":
@@ -377,6 +525,11 @@ def replay(payload):
     if payload["engine"] == "burst":
         r = run_unit(("burst", payload["M"], payload["B"]))
         for v in r["violations"]:
+            print("  ", v["what"][:300])
+        return r["violations"]
+    if payload["engine"] in ("resume", "hook-send"):
+        r = (run_resume if payload["engine"] == "resume" else run_hook_send)(payload["which"])
+        for v in r["violations"][:5]:
             print("  ", v["what"][:300])
         return r["violations"]
     if payload["engine"] == "preempt":
